@@ -293,10 +293,13 @@ func (x *Exec) binop(st *State, op token.Token, a, b Term, ta, tb types.Type, p 
 		switch ta.Underlying().(type) {
 		case *types.Slice:
 			// only comparison with nil is legal
-			if a.S == nilSlice.S {
+			switch {
+			case a.S == nilSlice.S:
 				eq = Eq(sBase(b), IntConst(0))
-			} else {
+			case b.S == nilSlice.S:
 				eq = Eq(sBase(a), IntConst(0))
+			default:
+				eq = Eq(a, b) // contracts only: identity of slice headers
 			}
 		case *types.Signature:
 			eq = Eq(a, b)
